@@ -173,6 +173,19 @@ pub fn dispatch(name: &str, args: &[&str]) -> Option<String> {
                 Err(e) => req_err(e),
             })
         }
+        // hdr_get <name:value,...> <lookup name> -> first=<hex|none> all=[hex,...] rest=<count after remove>
+        "hdr_get" => {
+            let mut hs = Headers::new();
+            for (k, v) in headers_of(args[0]) {
+                hs.add(k.as_str(), v);
+            }
+            let name = unhex_str(args[1]);
+            let first = hs.get(name.as_str()).map(|v| hex(v.as_bytes())).unwrap_or_else(|| "none".into());
+            let all = hs.get_all(name.as_str()).iter().map(|v| hex(v.as_bytes())).collect::<Vec<_>>().join(",");
+            let mut hs2 = hs.clone();
+            hs2.remove(name.as_str());
+            Some(format!("first={} all=[{}] rest={}", first, all, crate::http::show_headers(&hs2)))
+        }
         "cookies" => {
             let mut hs = Headers::new();
             hs.add("Cookie", unhex_str(args[0]));
